@@ -9,6 +9,9 @@ import (
 	"strings"
 	"time"
 
+	"github.com/lindb/common/pkg/logger"
+	"go.uber.org/zap/zapcore"
+
 	"github.com/lindb/lindb/aggregation/function"
 	"github.com/lindb/lindb/pkg/collections"
 	"github.com/lindb/lindb/tsdb"
@@ -22,9 +25,13 @@ func init() { core.Register(&area{}) }
 func (a *area) Name() string { return "query" }
 
 // number of dedicated deterministic cases (witnesses of the recorded findings and fixed shapes)
-const nFixed = 19
+const nFixed = 22
 
 func (a *area) Run(c *core.Ctx) error {
+	if c.Args["lindb-log"] != "" {
+		// diagnostics: lindb's own error log (stack of a panic recovered inside the query pipeline)
+		logger.RunningAtomicLevel.SetLevel(zapcore.ErrorLevel)
+	}
 	for i := 0; i < c.N; i++ {
 		if !c.Want(i) {
 			continue
@@ -41,8 +48,12 @@ func (a *area) Run(c *core.Ctx) error {
 				runFixed(c, i)
 			} else if i%9 == 4 {
 				runMonthCase(c, c.Rng(i), -1)
+			} else if i%9 == 1 {
+				runBlockCase(c, c.Rng(i))
 			} else {
-				runRandom(c, i)
+				// every 9th later case (and more with -arg region=container-boundary-multi-field, the
+				// bias of the violation search) lies in the region container-boundary-multi-field
+				runRandom(c, i, i%9 == 7 || (c.Args["region"] == "container-boundary-multi-field" && i%3 != 0))
 			}
 		}()
 		if c.Args["timing"] != "" {
@@ -68,10 +79,18 @@ type run struct {
 	collided bool          // two live memory databases share a createdTime
 	oracleOn bool          // false: no impl-side oracle in this case (witness cases evaluate their own)
 	failed   bool
+	// region container-boundary-multi-field: the real series ids the next new series get (ascending,
+	// on both sides of roaring container boundaries), and the ids given so far
+	idPool []uint32
+	realID map[int]uint32
+	newSer int // model id of the series whose first row is being written (0: none)
 }
 
-func newRun(c *core.Ctx, ivMs int64) (*run, error) {
-	e, err := newEnv(ivMs)
+func newRun(c *core.Ctx, ivMs int64) (*run, error) { return newRunOpt(c, ivMs, false) }
+
+// newRunOpt: oneScanner = the data-load stages of a query run one after another (see env.oneScanner).
+func newRunOpt(c *core.Ctx, ivMs int64, oneScanner bool) (*run, error) {
+	e, err := newEnvOpt(ivMs, oneScanner)
 	if err != nil {
 		return nil, err
 	}
@@ -96,6 +115,26 @@ func (r *run) declare(s seriesDef) {
 	}
 	r.declared[s.id] = true
 	r.series[s.id] = s
+	if len(r.idPool) > 0 {
+		id := r.idPool[0]
+		r.idPool = r.idPool[1:]
+		if err := r.e.setNextSeriesID(id); err != nil {
+			r.c.Fail("harness-setup", "setNextSeriesID: "+err.Error())
+		} else {
+			if r.realID == nil {
+				r.realID = map[int]uint32{}
+			}
+			r.realID[s.id] = id
+			r.newSer = s.id
+			r.c.Branch(fmt.Sprintf("gen/series-id-container-%d", id>>16))
+			if id&0xffff == 0 {
+				r.c.Branch("gen/series-id-first-of-container")
+			}
+			if id&0xffff == 0xffff {
+				r.c.Branch("gen/series-id-last-of-container")
+			}
+		}
+	}
 	r.nv.series = append(r.nv.series, s)
 	var ks []int
 	for k := range s.tags {
@@ -130,6 +169,18 @@ func (r *run) writeRow(fam int, s seriesDef, slot int, jitter int64, fvs []field
 	_ = sameTick // (created times are process-unique since fix 4be15ce: no waiting for a clock tick)
 	ts := r.e.familyTime(fam) + int64(slot)*r.ivMs + jitter
 	err := r.e.writeRow(fam, ts, tagsOf(s), fvs, h)
+	if r.newSer == s.id {
+		// the series must have got the planned id (otherwise the case silently leaves its region)
+		r.newSer = 0
+		ids, e2 := r.e.realSeriesIDs()
+		have := false
+		for _, x := range ids {
+			have = have || x == r.realID[s.id]
+		}
+		if err == nil && (e2 != nil || !have) {
+			r.c.Fail("series-id-not-as-planned", fmt.Sprintf("series %d should have got id %d; the metric's ids are %v (%v)", s.id, r.realID[s.id], ids, e2))
+		}
+	}
 	if creates && err == nil {
 		// the real createdTime of the new memory database decides the tick id given to the model
 		ct, ok := r.e.createdOf(fam)
@@ -324,7 +375,7 @@ func (r *run) regions(q qSpec) []string {
 // inside the claimed region, the impl-side oracle.
 func (r *run) query(q qSpec) (aggResult, string) {
 	res, errMsg, err := r.e.leafQuery(r.spf, q)
-	var implLine string
+	var implLine, implLineNote string
 	switch {
 	case err != nil:
 		implLine = "harness-error"
@@ -338,6 +389,7 @@ func (r *run) query(q qSpec) (aggResult, string) {
 			implLine = "rs-error"
 			r.c.Branch("query/error")
 			r.c.Note("leaf error: " + errMsg)
+			implLineNote = " (leaf error: " + errMsg + ")"
 		}
 	default:
 		implLine = res.render()
@@ -377,7 +429,7 @@ func (r *run) query(q qSpec) (aggResult, string) {
 		}
 		r.c.Note(fmt.Sprintf("the same query asked again 3 times: %q", again))
 		fmt.Fprintf(os.Stderr, "MISMATCH seed %d %s\n first: %s\n want : %s\n again: %q\n schema: %s\n", r.c.Seed, q.sql(), implLine, wantLine, again, r.e.schemaDump())
-		r.c.Fail("query-ne-naive", fmt.Sprintf("%s [qs=%d qe=%d ratio=%d]: leaf answered %q, reference %q", q.sql(), q.qs, q.qe, q.ratio, implLine, wantLine))
+		r.c.Fail("query-ne-naive", fmt.Sprintf("%s [qs=%d qe=%d ratio=%d]: leaf answered %q%s, reference %q", q.sql(), q.qs, q.qe, q.ratio, implLine, implLineNote, wantLine))
 	}
 	return res, implLine
 }
@@ -409,10 +461,34 @@ func genCond(rng *rand.Rand, depth int) cond {
 	}
 }
 
-func runRandom(c *core.Ctx, idx int) {
+// boundaryIDs: candidates for the real series ids of a container-boundary case.
+var boundaryIDs = []uint32{3, 65534, 65535, 65536, 65537, 131071, 131072, 131073, 196608}
+
+// pickBoundaryIDs draws n ascending ids; at least one of them is the first id of a container and
+// has a smaller id of another container before it (so that a series bucket, closed by its footer,
+// precedes that series in every flushed metric block that holds both).
+func pickBoundaryIDs(rng *rand.Rand, n int) []uint32 {
+	for {
+		perm := rng.Perm(len(boundaryIDs))[:n]
+		sort.Ints(perm)
+		var ids []uint32
+		ok := false
+		for k, p := range perm {
+			ids = append(ids, boundaryIDs[p])
+			if k > 0 && boundaryIDs[p]&0xffff == 0 {
+				ok = true
+			}
+		}
+		if ok {
+			return ids
+		}
+	}
+}
+
+func runRandom(c *core.Ctx, idx int, boundary bool) {
 	rng := c.Rng(idx)
 	ivMs := intervals[rng.Intn(len(intervals))]
-	r, err := newRun(c, ivMs)
+	r, err := newRunOpt(c, ivMs, boundary)
 	if err != nil {
 		c.Fail("harness-setup", err.Error())
 		return
@@ -464,6 +540,37 @@ func runRandom(c *core.Ctx, idx int) {
 	flds := fieldSets[rng.Intn(len(fieldSets))]
 	useHist := rng.Intn(4) == 0
 	nOps := 8 + rng.Intn(30)
+	wT, fT, cT := 70, 80, 84 // op thresholds: write | flush | compact | reopen, query
+	if boundary {
+		// region container-boundary-multi-field: 2..6 series whose REAL ids lie on both sides of
+		// roaring container boundaries (65535 | 65536, 131071 | 131072, ...), a metric with several
+		// fields in most cases (a flushed series entry then carries field offsets), more flushes and
+		// compactions (both go through metricsdata.flusher)
+		c.Branch("gen/region:container-boundary-multi-field")
+		brng := rand.New(rand.NewSource(rng.Int63()))
+		target := 2 + brng.Intn(5)
+		for len(sdefs) < target {
+			a, b := 1+brng.Intn(3), 1+brng.Intn(3)
+			if seen[[2]int{a, b}] {
+				continue
+			}
+			seen[[2]int{a, b}] = true
+			sdefs = append(sdefs, seriesDef{id: len(sdefs) + 1, tags: map[int]int{1: a, 2: b}})
+		}
+		r.idPool = pickBoundaryIDs(brng, len(sdefs))
+		if brng.Intn(5) != 0 {
+			flds = [][]int{{1, 2}, {1, 2, 3}, {2, 3}, {1, 3}, {1, 2, 3, 4, 5}, {1, 4}}[brng.Intn(6)]
+		}
+		if len(flds) > 1 {
+			c.Branch("gen/boundary:multi-field")
+		} else {
+			c.Branch("gen/boundary:one-field")
+		}
+		wT, fT, cT = 60, 76, 83
+		if nOps < 16 {
+			nOps += 10
+		}
+	}
 	// a "hot" region of slots so that duplicates and window effects are frequent
 	hot := rng.Intn(spf)
 	// two hot regions more than a window apart: writes flip between them, so windows are left,
@@ -493,7 +600,7 @@ func runRandom(c *core.Ctx, idx int) {
 	for op := 0; op < nOps; op++ {
 		x := rng.Intn(100)
 		switch {
-		case x < 70:
+		case x < wT:
 			fam := pick(rng, famChoices)
 			s := sdefs[rng.Intn(len(sdefs))]
 			slot := slotOf()
@@ -538,7 +645,7 @@ func runRandom(c *core.Ctx, idx int) {
 			}
 			r.writeRow(fam, s, slot, int64(rng.Intn(int(ivMs))), fvs, h, false)
 			c.Branch("op/write")
-		case x < 80:
+		case x < fT:
 			fam := pick(rng, famChoices)
 			if rng.Intn(5) < 2 {
 				// a flush in progress: rows and queries between the memory database switch and the commit
@@ -569,10 +676,35 @@ func runRandom(c *core.Ctx, idx int) {
 			} else {
 				r.flush(fam)
 			}
-		case x < 84:
+		case x < cT:
 			r.compact(pick(rng, famChoices))
 		case x < 87 || (partial && x < 91):
 			r.reopen()
+			if boundary {
+				// after a restart the memory databases' metric index is empty; as soon as it holds a
+				// series of one container, a query that also covers a series of a LARGER container
+				// missing from it fails (finding memdb-index-load-missing-container-negative-index,
+				// witness: fixed case 21). The generator stays outside: one row for one series of every
+				// container in use right after the restart.
+				done := map[uint32]bool{}
+				for _, s := range sdefs {
+					id, ok := r.realID[s.id]
+					if !ok || done[id>>16] {
+						continue
+					}
+					fam, f := pick(rng, famChoices), flds[rng.Intn(len(flds))]
+					slot := slotOf()
+					for tries := 0; tries < 50 && r.sh.flushedCell[cellKey{fam, s.id, f, slot}]; tries++ {
+						slot = rng.Intn(spf)
+					}
+					if !commutative(aggOfFieldType(schema[f].ftype)) && r.sh.flushedCell[cellKey{fam, s.id, f, slot}] {
+						continue
+					}
+					done[id>>16] = true
+					r.writeRow(fam, s, slot, 0, []fieldVal{{f, float64(rng.Intn(41) - 10)}}, nil, false)
+					c.Branch("op/write-after-restart-per-container")
+				}
+			}
 		default:
 			if len(r.nv.streams) > 0 {
 				doQuery()
@@ -676,6 +808,13 @@ func genQuery(rng *rand.Rand, r *run, flds []int, useHist bool, fams []int) qSpe
 		q.by = []int{1, 2}
 	}
 	if firstLast && rng.Intn(4) != 0 {
+		q.by = []int{1, 2}
+	}
+	if firstLast && r.realID != nil {
+		// container-boundary case: the series of a group may lie in several containers, which are
+		// loaded one after another (container, then family, then source) — a first/last over several
+		// series then follows an order the model (family, source, series) does not have; one series
+		// per group
 		q.by = []int{1, 2}
 	}
 	if firstLast && r.sh.maxFilesInRange(q) > 1 {
